@@ -26,6 +26,17 @@ Print Assumptions boxes_roundtrip_any_split.
 
 
 
+(** a history of sendBox calls on one connection, some of them with boxes that are refused: a refused box leaves
+    nothing on the wire, so the peer receives exactly the accepted boxes, in order, whatever the segmentation *)
+Theorem sendbox_history_roundtrip : forall bs cs,
+  Forall (fun b => NoDup (map fst b)) bs ->
+  chunks cs (sent_wire bs) ->
+  run amp_feed amp_init cs = (filter accepted bs, Some (mode0, [])).
+Proof. exact sendbox_history_roundtrip_proof. Qed.
+Print Assumptions sendbox_history_roundtrip.
+
+
+
 (** serialize accepts exactly the boxes whose keys have 1..255 bytes and whose values have at most 65535 *)
 Theorem representable_box_accepted : forall items, forallb item_ok items = true -> exists w, serialize items = Some w.
 Proof. exact representable_box_accepted_proof. Qed.
